@@ -193,3 +193,41 @@ class TxSpy:
             m.d[domain] += self.packets.eq(self.packets + 1)
         self.is_data = (self.count != 0) & (self.pid[0:2] == 0b11)
         self.is_hsk = (self.count != 0) & (self.pid[0:2] == 0b10)
+
+
+# ---------------------------------------------------------------- case splitting over the transaction kinds
+#
+# With symbolic `kind` / `flag` choices the cycle-level framing of a slot is a mux over all packet shapes and the
+# CRC-corruption bit is XORed into the host's CRC; z3 then no longer folds the framing and the shared-definition CRCs
+# (measured on the C07 harness, 3 slots, K=98: one assertion 195 s with the flags symbolic and >300 s with kinds
+# symbolic, against 0.2 s with both pinned).  Device-level checks therefore enumerate the per-slot (kind, flag)
+# choices as separate solver queries ("cubes"); address, endpoint, data bytes, payload length, PIDs stay symbolic in
+# every cube, so the union of the cubes is exactly the symbolic script space restricted to the listed options.
+
+SLOT_OPTIONS = {
+    "S": dict(kind=KIND_SETUP, flag=0),    # SETUP + valid DATA0
+    "s": dict(kind=KIND_SETUP, flag=1),    # SETUP + DATA0 with corrupted CRC16
+    "I": dict(kind=KIND_IN, flag=1),       # IN, host ACKs the device's data
+    "i": dict(kind=KIND_IN, flag=0),       # IN, host's ACK is lost / withheld
+    "O": dict(kind=KIND_OUT, flag=0),      # OUT + valid DATAx (symbolic DATA0/DATA1)
+    "o": dict(kind=KIND_OUT, flag=1),      # OUT + DATAx with corrupted CRC16
+    "P": dict(kind=KIND_OUT, flag=0, dpid=1),   # OUT + valid DATA1 (control status stage)
+    "Q": dict(kind=KIND_OUT, flag=0, dpid=0),   # OUT + valid DATA0
+    "N": dict(kind=KIND_NONE, flag=0),     # idle slot
+    "F": dict(kind=KIND_SOF, flag=0),      # start of frame
+    "f": dict(kind=KIND_SOF, flag=1),      # start of frame with corrupted CRC5
+}
+
+
+def slot_cubes(nslots, options, first=None, prefix="s", extra=None):
+    """yield (name, layer) for every combination of per-slot options (`first` optionally restricts slot 0)"""
+    import itertools
+    pools = [list(first) if (first and i == 0) else list(options) for i in range(nslots)]
+    for combo in itertools.product(*pools):
+        layer = {}
+        for i, o in enumerate(combo):
+            for key, val in SLOT_OPTIONS[o].items():
+                layer[f"{prefix}{i}_{key}"] = val
+        if extra:
+            layer.update(extra)
+        yield "".join(combo), layer
